@@ -164,3 +164,46 @@ def fromSourcesDoc (h : List Doc) : Except SourcesErr Shape :=
     | .ok s => .ok s
 
 end ShapeVerif
+
+namespace ShapeVerif
+open Shape
+
+/-! ### The D3 class (known finding): arrays of objects whose elements disagree on a key's shape
+
+`parse_rule`/`From<&Value>` keep the *first* value shape seen for a key of an array of objects
+(`entry(key).or_insert_with(..)`); a later element carrying a different shape under the same key is
+therefore not a member of the inferred shape. The repository's own snapshot test pins this
+behaviour (`tests/fixture/test.json`), so it is recorded, not repaired. `keysAgree` is the exact
+side condition under which the array-of-objects branch is faithful. -/
+
+/-- every key carried by two of the element objects has the same value shape in both -/
+def keysAgree (elements : List Shape) : Bool :=
+  elements.all fun a => elements.all fun b =>
+    match a, b with
+    | .object ca _, .object cb _ =>
+      ca.all fun kv => match mapGet kv.1 cb with
+        | some v' => cmp kv.2 v' == .eq
+        | none => true
+    | _, _ => true
+
+def shapesOf (rs : List (Except InferErr Shape)) : List Shape :=
+  rs.filterMap fun r => match r with | .ok s => some s | .error _ => none
+
+mutual
+/-- no array of objects inside the document falls into the D3 class -/
+def conflictFree : Doc → Bool
+  | .arr xs => conflictFreeList xs && keysAgree (shapesOf (inferEach xs))
+  | .obj ms => conflictFreeMembers ms
+  | _ => true
+def conflictFreeList : List Doc → Bool
+  | [] => true
+  | x :: xs => conflictFree x && conflictFreeList xs
+def conflictFreeMembers : List (String × Doc) → Bool
+  | [] => true
+  | (_, v) :: ms => conflictFree v && conflictFreeMembers ms
+def inferEach : List Doc → List (Except InferErr Shape)
+  | [] => []
+  | x :: xs => inferDoc x :: inferEach xs
+end
+
+end ShapeVerif
